@@ -110,4 +110,16 @@ def Live.step (l : Live) : Op → Live
 
 def liveAfter (ops : List Op) : Live := ops.foldl Live.step {}
 
+/-- the collections one call hands to the record (an `add_<area>` argument, the regions a clearing call
+    re-creates) -/
+def opAreas : Op → List AreaT
+  | .area a => [a]
+  | .clearSubs new => new
+  | .clearCands new => new
+  | .clearProtos new => new
+  | _ => []
+
+/-- every collection a history hands to the record -/
+def opsAreas (ops : List Op) : List AreaT := ops.flatMap opAreas
+
 end ASV.Lookup
